@@ -115,7 +115,7 @@ def detect(prop, n, checks):
 
 def keep(prop, n):
     """store a confirmed change under /verif/seeded/<prop>-<n>/ (patch.diff, demonstration, meta.json)"""
-    out = "/tmp/mut_%s_out" % prop
+    out = os.environ.get("SEED_OUT", "/tmp/mut_%s_out" % prop)
     dst = os.path.join("/verif/seeded", "%s-%s" % (prop, n))
     os.makedirs(dst, exist_ok=True)
     shutil.copy(os.path.join(out, "patch_%s.diff" % n), os.path.join(dst, "patch.diff"))
@@ -144,6 +144,16 @@ if __name__ == "__main__":
     mode, prop, n = sys.argv[1], sys.argv[2], sys.argv[3]
     if mode == "confirm":
         print(json.dumps(confirm(prop, n), indent=1))
+    elif mode == "keepverdict":
+        mp = os.path.join("/verif/seeded", "%s-%s" % (prop, n), "meta.json")
+        meta = json.load(open(mp))
+        r = json.load(open("/tmp/seedres/detect_%s_%s.json" % (prop, n)))
+        meta["checks_run"] = {c: {"exit": v["rc"], "lines": v["lines"], "detail": v["detail"]} for c, v in r.get("checks", {}).items()}
+        meta["detected_by"] = [c for c, v in r.get("checks", {}).items()
+                               if v["rc"] == 1 and (any(l.startswith("VIOLATION") for l in v["lines"]) or any("violates" in x or "broken" in x for x in v["detail"]))]
+        meta["concrete_input"] = [c for c, v in r.get("checks", {}).items() if v["rc"] == 1 and any("implementation violates" in x or "kernel " in x for x in v["detail"])]
+        json.dump(meta, open(mp, "w"), indent=1)
+        print(meta["detected_by"])
     elif mode == "keep":
         print(json.dumps(keep(prop, n), indent=1)[:400])
     else:
